@@ -134,6 +134,7 @@ class Enc:
                     self.preds[s].append(b)
         # loop bodies: for back edge (t,h): nodes reachable from h that reach t
         self.havoc_at = {}
+        self.loop_bodies = {}
         if self.back_edges:
             succs = {b: [s for s, _ in self.blocks[b].succ if s in self.blocks] for b in self.blocks}
             rpreds = {b: [] for b in self.blocks}
@@ -165,6 +166,7 @@ class Enc:
                         if m:
                             assigned.add(m.group(1))
                 self.havoc_at.setdefault(h, set()).update(assigned)
+                self.loop_bodies.setdefault(h, set()).update(body)
 
     # ------------------------------------------------------------ operand evaluation
     def const_term(self, txt):
